@@ -77,6 +77,12 @@ def cells(tier):
     sc = scen(pool(1), [[A("E", 1), A("A", 1), A("B", 2, worker="instant")], [cancel(rid("A", 0))], [FLUSH]], outcomes=["ret"],
               ecb="slow", ccb="slow", slow_ids=[["ecb", 0, 0], ["ccb", 0, 1]])
     out.append(cell("s1 E1,A1,B2 cancelA0 flush slow ecb(E)/ccb(A)", sc, MON))
+    sc = scen(pool(2), [[A("X", 2)], [["gac", {"when": "quiet_idle"}]], [["cancel_op", 1]],
+                        [["unlock", {"after": [1, 1], "after_done": True}], A("B", 3)]], outcomes=["ret"])
+    out.append(cell("s2 X2|gac@idle|cancel-the-close|unlock,B3", sc, MON, own_only=True))
+    sc = scen(pool(2, "SimpleTaskPool"), [[S("X", 2)], [["gac", {"when": "quiet_idle"}]], [["cancel_op", 1]],
+                                            [["unlock", {"after": [1, 1], "after_done": True}], S("B", 3)]], outcomes=["ret"])
+    out.append(cell("simple s2 X2|gac@idle|cancel-the-close|unlock,B3", sc, MON, own_only=True))
     if not q:
         sc = scen(pool(2), [[A("A", 1)], [A("C", 1)], [A("B", 2)], [cancel(rid("C", 0))], [FLUSH]], outcomes=["ret"],
                   ecb="slow", ccb="slow", slow_ids=[["ecb", 0, 0], ["ccb", 0, 1]])
